@@ -337,7 +337,7 @@ ares_status_t ares_init_by_options(ares_channel_t            *channel,
     if (options->timeout > 0) {
       /* Convert to milliseconds */
       optmask          |= ARES_OPT_TIMEOUTMS;
-      channel->timeout  = (unsigned int)options->timeout * 1000;
+      channel->timeout  = (size_t)options->timeout * 1000;
     }
   }
 
